@@ -313,6 +313,40 @@ func casesC06(g *Gen) []*Case {
 		}
 		cs = append(cs, c)
 	}
+	// a reserve evaluated several times (inside a loop of the layout): the insert is evaluated each
+	// time, with the variables of that pass
+	for _, form := range []struct{ ins, want string }{
+		{`@insert("row")<{{ it }}:{{ loop.index }}>@end`, "[<1:0><2:1><3:2>]"},
+		{`@insert("row", it * 10)`, "[102030]"},
+		{`@insert("row")@if(it == 2)two@else{{ it }}@end,@end`, "[1,two,3,]"},
+	} {
+		t := newTree()
+		t.files["tpl/layouts/rows.tw"] = `[@each(it in items)@reserve("row")@end]`
+		t.files["tpl/p.tw"] = `@use("~rows")` + form.ins
+		d := gvMap("items", gvList(gvInt(1), gvInt(2), gvInt(3)))
+		c := histCase("reserve_in_loop", t, []string{opNew("tpl", ".tw", "", false), opStr("p", d), opStr("p", d)}, "NewTemplate; String(p) twice")
+		c.Oracle = expectResults(map[int]func(string) string{0: wantNewOK, 1: wantOK(form.want), 2: wantOK(form.want)})
+		cs = append(cs, c)
+	}
+	// names with dots in them (layout, page), next to a decoy file without the extension
+	for _, ext := range []string{".tw", ".tw.html"} {
+		t := newTree()
+		t.files["tpl/layouts/base.v2"+ext] = `<v2>@reserve("main")</v2>`
+		t.files["tpl/layouts/base.v2"] = `<DECOY>@reserve("main")</DECOY>`
+		t.files["tpl/home.v1"+ext] = `@use("~base.v2")@insert("main")M@end`
+		t.files["tpl/other.page"+ext] = `@use("layouts/base.v2")@insert("main", "N")`
+		c := histCase("dotted_names", t, []string{opNew("tpl", ext, "", false), opStr("home.v1", nil), opStr("other.page", nil)}, "NewTemplate; String(home.v1); String(other.page)")
+		c.Oracle = expectResults(map[int]func(string) string{0: wantNewOK, 1: wantOK("<v2>M</v2>"), 2: wantOK("<v2>N</v2>")})
+		cs = append(cs, c)
+	}
+	{
+		t := newTree()
+		t.files["tpl/layouts/base.v2"] = `<DECOY>@reserve("main")</DECOY>`
+		t.files["tpl/home.tw"] = `@use("~base.v2")@insert("main")M@end`
+		c := histCase("dotted_names", t, []string{opNew("tpl", ".tw", "", false)}, "NewTemplate (only a file without the extension exists for the layout)")
+		c.Oracle = expectResults(map[int]func(string) string{0: wantErr("")})
+		cs = append(cs, c)
+	}
 	// falsy expression inserts still fill the reserve
 	{
 		t := newTree()
@@ -721,8 +755,49 @@ func wantErrAt(line int, path string, msgPart string) func(string) string {
 	}
 }
 
+// wantErrLine: an error on the given line (the path is not constrained)
+func wantErrLine(line int, msgPart string) func(string) string {
+	return func(r string) string {
+		r = strings.TrimPrefix(r, "NEWERR ")
+		f := strings.Fields(r)
+		if len(f) < 4 || f[0] != "ERR" {
+			return fmt.Sprintf("expected an error at line %d, got %s", line, describe(r))
+		}
+		if f[1] != strconv.Itoa(line) {
+			return fmt.Sprintf("the construct is on line %d of its file, the error reports line %s (%q)", line, f[1], unhx(f[3]))
+		}
+		if msgPart != "" && !strings.Contains(unhx(f[3]), msgPart) {
+			return fmt.Sprintf("expected a message about %q, got %q", msgPart, unhx(f[3]))
+		}
+		return ""
+	}
+}
+
 func casesC13(g *Gen) []*Case {
 	var cs []*Case
+	// faults inside a component file that starts with blank lines / multi-line material; the page
+	// that uses it is loaded before the component file itself ("about" < "widgets/card") or after it
+	for i := 0; i < g.scale(400, 10000); i++ {
+		f := evalFaults[g.n(len(evalFaults))]
+		if f.src == "@if(true" {
+			continue
+		}
+		pre := g.pick([]string{"\n", "\n\n", "\r\n\r\n", " \n\t\n", ""}) + g.preamble()
+		line := strings.Count(pre, "\n") + 1
+		pageName := g.pick([]string{"about", "zlast"})
+		t := newTree()
+		t.files["tpl/widgets/card.tw"] = pre + f.src + g.pick([]string{"", "\n", "\n\n"})
+		t.files["tpl/"+pageName+".tw"] = "P\n\n@component(\"widgets/card\")"
+		isParse := f.kind == "illegal_character" || f.kind == "unexpected_token"
+		ops := []string{opNew("tpl", ".tw", "", false), opStr(pageName, nil)}
+		c := histCase("component_file_"+f.kind, t, ops, "NewTemplate; String("+pageName+")")
+		if isParse {
+			c.Oracle = expectResults(map[int]func(string) string{0: wantErrAt(line, "tpl/widgets/card.tw", f.msgPart)})
+		} else {
+			c.Oracle = expectResults(map[int]func(string) string{0: wantNewOK, 1: wantErrLine(line, f.msgPart)})
+		}
+		cs = append(cs, c)
+	}
 	for i := 0; i < g.scale(4000, 100000); i++ {
 		f := evalFaults[g.n(len(evalFaults))]
 		pre := g.preamble()
@@ -895,6 +970,40 @@ func casesC18(g *Gen) []*Case {
 		c := histCase("registered_names", t, ops, "NewTemplate("+spell+", "+ext+"); String(each name); String(no/such/name)")
 		c.Oracle = expectResults(checks)
 		cs = append(cs, c)
+	}
+	// a file without reserves that another page uses as its layout is still a page of its own,
+	// whichever of the two is loaded first; a fault inside it still fails loading
+	for _, user := range []string{"app", "zz/app"} {
+		t := newTree()
+		t.files["tpl/shared/base.tw"] = "<B>{{ 1 + 1 }}</B>"
+		t.files["tpl/"+user+".tw"] = "@use(\"shared/base\")ignored"
+		c := histCase("plain_file_used_as_layout", t, []string{opNew("tpl", ".tw", "", false), opStr("shared/base", nil), opStr(user, nil)}, "NewTemplate; String(shared/base); String("+user+")")
+		c.Oracle = func(c *Case, impl string) string {
+			rs := results(impl)
+			if len(rs) != 3 || !strings.HasPrefix(rs[0], "NEWOK") {
+				return "the tree must load: " + clip(impl, 200)
+			}
+			names := strings.Split(strings.TrimPrefix(rs[0], "NEWOK "), ",")
+			got := map[string]bool{}
+			for _, n := range names {
+				got[unhx(n)] = true
+			}
+			if !got["shared/base"] || !got[user] || len(got) != 2 {
+				return fmt.Sprintf("registered names must be exactly {shared/base, %s}, got %v", user, got)
+			}
+			for _, r := range rs[1:] {
+				if msg := wantOK("<B>2</B>")(r); msg != "" {
+					return msg
+				}
+			}
+			return ""
+		}
+		cs = append(cs, c)
+		t2 := t.clone()
+		t2.files["tpl/shared/base.tw"] = "<B>@component(\"nosuchcomp\")</B>"
+		c2 := histCase("plain_file_used_as_layout", t2, []string{opNew("tpl", ".tw", "", false)}, "NewTemplate (the used file refers to a missing component)")
+		c2.Oracle = expectResults(map[int]func(string) string{0: wantErr("nosuchcomp")})
+		cs = append(cs, c2)
 	}
 	// fault enumeration on a valid tree: every file x {truncated at every prefix, garbage, dangling symlink, directory in its place, deleted}
 	valid := newTree()
